@@ -204,6 +204,11 @@ class SymRun:
             lk = ex.call(self.M('lookup_rec_expr'), [Ref(re_, 'r'), self.egref])
             self.extra = {'extract': {'cf': cf, 'cost': conc(cost), 'term': self.describe_rec(re_['r']), 'lookup_some': lk.disc == 1,
                                       'lookup_eq': self.eq(lk.payload.f[0], self.handles[term]) if lk.disc == 1 else None}}
+            # the free function extract::<L, N, CF> (what ast_size_extract and the substitution methods call): its own result obeys the same obligations
+            fr = {'r': ex.call(self.M('extract'), [self.href(term), self.egref])}
+            lk2 = ex.call(self.M('lookup_rec_expr'), [Ref(fr, 'r'), self.egref])
+            self.extra['extract'].update({'free_term': self.describe_rec(fr['r']), 'free_lookup_some': lk2.disc == 1,
+                                          'free_lookup_eq': self.eq(lk2.payload.f[0], self.handles[term]) if lk2.disc == 1 else None})
             return
         if op[0] == 'explain':
             # C07: EGraph::explain_equivalence on two terms given as RecExpr; the returned proof DAG is dumped with every equation written out on terms (get_syn_expr)
@@ -578,6 +583,7 @@ def concretize(run, ex):
             if 'extract' in st:
                 def dt(t): return [t[0]] + [dt(a) if isinstance(a, list) else norm_fresh(str(name_of_value_(a, N, vals, model))) for a in t[1:]]
                 st['extract'] = dict(st['extract']); st['extract']['term'] = dt(st['extract']['term'])
+                if st['extract'].get('free_term') is not None: st['extract']['free_term'] = dt(st['extract']['free_term'])
             if 'explain' in st:
                 def pt(t): return [t[0]] + [pt(a) if isinstance(a, list) else (a if isinstance(a, tuple) else str(name_of_value_(a, N, vals, model))) for a in t[1:]]
                 st['explain'] = {'root': st['explain']['root'], 'nodes': [dict(nd, l=pt(nd['l']), r=pt(nd['r'])) for nd in st['explain']['nodes']]}
